@@ -9,7 +9,7 @@ from ..core.facts import callee_name
 CONFIGS = {'quick': ['A', 'P'], 'thorough': ['A', 'C', 'D', 'P']}     # prior_epoch feature absent from B
 LEVEL = 'other'
 TECHNIQUE = ('must-pass-through on the prior-epoch decryption branch, guard extraction with operand origins for the sender re-validation '
-             'and the epoch chain, call ordering of the prior-epoch lookup, trimming on every store write')
+             'and the epoch chain, call ordering, offset guard and tier reachability of the prior-epoch lookup, trimming on every store write')
 EXPLANATION = ('MUST-PASS: a message decrypted with the secrets of a past epoch is accepted only after the sender\'s signature key of '
                'that epoch has been compared with the key now at that leaf (mismatch => MemberNotFound), on every path. ORDER: prior '
                'epochs are looked up in pending inserts, then pending updates, then storage; new prior epochs are chained (id = max + 1, '
